@@ -308,7 +308,7 @@ func (s *Session) Close() error {
 	S := s.Sh.Sv.S
 	before := len(S.Log())
 	s.C.Close()
-	deadline := time.Now().Add(5 * time.Second)
+	deadline := time.Now().Add(30 * time.Second)
 	id := script.ConnID(s.Name)
 	for {
 		closed := 0
